@@ -56,9 +56,10 @@ def setup_validate_row(ex, st):
     st.pc.extend([line.z >= 0, cell0.z >= 0])
     st.heap[loc.oid] = {"file_path": "<io>", "_line": line, "_column": 0, "_cell": cell0, "_sheet": 0, "_has_column": False, "_has_cell": True, "_has_sheet": False}
     cid = Ref("Cid"); st.heap[cid.oid] = {"_field_formats": fields, "_field_names": names, "_check_names": checks, "_check_name_to_check_map": UFMap(STR, CHECK, check_of)}
-    self = Ref("Reader"); st.heap[self.oid] = {"_cid": cid, "_expected_item_count": n, "_location": loc, "_is_closed": False}
+    started = fresh(BOOL, "run_started")[0]
+    self = Ref("Reader"); st.heap[self.oid] = {"_cid": cid, "_expected_item_count": n, "_location": loc, "_is_closed": False, "_has_reset_checks": started}
     env = st.frames[-1].env; env["self"] = self; env["row"] = row
-    st.ghost.update({"fields_done": 0, "checks_done": 0, "n_fields": n, "row_id": fresh(INT, "row_id")[0]})
+    st.ghost.update({"fields_done": 0, "checks_done": 0, "n_fields": n, "row_id": fresh(INT, "row_id")[0], "run_started": started, "reset_calls": 0, "this": self})
     st.ghost["loc"] = loc; st.ghost["line0"] = line; st.ghost["fields"] = fields; st.ghost["rowv"] = row; st.ghost["n"] = n; st.ghost["m"] = m
     st.ghost["checksv"] = checks; st.ghost["check_of"] = check_of
 
@@ -86,8 +87,11 @@ def validate_row_contract():
         requires=[],
         returns=[Clause(ALL_OK, "accepted-only-if-count-cells-and-checks-pass", props=["C04", "C05", "C20"]),
                  Clause("fields_done == n and checks_done == m", "every-field-and-check-consulted-once", props=["C04", "C20"]),
-                 Clause("loc._line == line0", "row-number-untouched", props=["C04"])],
+                 Clause("loc._line == line0", "row-number-untouched", props=["C04"]),
+                 Clause(lambda ex, st: Sym(BOOL, z3.And(z3.If(G(st, "run_started"), z3.IntVal(0), z3.IntVal(1)) == st.ghost["reset_calls"], z3.BoolVal(st.heap[st.ghost["this"].oid]["_has_reset_checks"] is True) if not isinstance(st.heap[st.ghost["this"].oid]["_has_reset_checks"], Sym) else st.heap[st.ghost["this"].oid]["_has_reset_checks"].z)),
+                        "the-first-row-of-a-run-that-feeds-its-rows-itself-resets-the-checks-once-a-run-under-way-does-not;-afterwards-the-run-counts-as-begun", props=["C08", "C05", "C20"])],
         raises={"DataError": [
+            Clause(lambda ex, st: Sym(BOOL, z3.If(G(st, "run_started"), z3.IntVal(0), z3.IntVal(1)) == st.ghost["reset_calls"]), "also-a-rejected-first-row-has-reset-the-checks-once", props=["C08", "C05", "C20"]),
             Clause("not (%s)" % ALL_OK, "rejected-only-if-something-fails", props=["C04", "C05", "C20"]),
             Clause("exc._location is not None and exc._location is not loc and exc._location._line == line0 and exc._location._has_cell", "error-carries-its-own-copy-of-the-location-at-this-row", props=["C04", "C06"]),
             Clause("implies(len(row) == n and exists(j, 0 <= j and j < n, not accepts(j)), "
@@ -106,8 +110,15 @@ def validate_row_contract():
         }, expect=["return", "DataError"], n_loops=2)
 
 
+def m_reset_checks(ex, st, recv, args, kw):
+    """contract of BaseValidator._reset_checks (verified: validio.BaseValidator._reset_checks): every check reset once, the run marked as begun"""
+    ex.obligations.append(Obligation("protocol/the-checks-are-reset-before-anything-is-asked-of-a-field-or-check", st.pc, z3.And(G(st, "fields_done") == 0, G(st, "checks_done") == 0), "protocol", props=["C08", "C20", "C05"]))
+    st.ghost["reset_calls"] = st.ghost["reset_calls"] + 1; st.heap[recv.oid]["_has_reset_checks"] = True
+    yield st, None
+
+
 def validate_row_callees():
-    return {"abs:Field.validated": AbsContract(field_validated), "abs:Check.check_row": AbsContract(check_row), "absattr:Field.field_name": absattr_field_name}
+    return {"ref:Reader._reset_checks": m_reset_checks, "abs:Field.validated": AbsContract(field_validated), "abs:Check.check_row": AbsContract(check_row), "absattr:Field.field_name": absattr_field_name}
 
 
 VR_SPECF = {"accepts": sf_accepts, "check_ok": sf_check_ok, "field_name": sf_field_name, "startswith": sf_startswith, "repr_of": sf_repr_of}
@@ -146,7 +157,7 @@ class _StubCid:
         self._data_format = self.data_format
 
 
-def native_validate_row(fields_accept, checks_veto, row, line=3):
+def native_validate_row(fields_accept, checks_veto, row, line=3, run_started=True):
     """run the real BaseValidator.validate_row with recording stubs; returns (outcome, log, location)"""
     from cutplace import validio, errors
     log = []
@@ -154,6 +165,7 @@ def native_validate_row(fields_accept, checks_veto, row, line=3):
     checks = [_StubCheck("c%d" % i, veto, log) for i, veto in enumerate(checks_veto)]
     v = validio.BaseValidator(_StubCid(fields, checks))
     v._location = errors.Location("<io>", has_cell=True)
+    v._has_reset_checks = run_started          # inside a run (rows() / Writer have reset the checks) - or the first row of a run that feeds its rows itself
     for _ in range(line): v._location.advance_line()
     try:
         v.validate_row(row); out = ("return", None)
@@ -174,11 +186,16 @@ class ValidateRowOracle(Oracle):
                 for rl in range(0, 5):
                     for row in itertools.product(cells, repeat=rl):
                         yield (nf, nc, list(row))
+                        if rl <= 2: yield (nf, nc, list(row), "first row of a run")
     def check(self, case):
-        nf, nc, row = case
+        nf, nc, row = case[:3]; first = len(case) > 3
         accept = [{"a"} for _ in range(nf)]
         veto = [{tuple(["a"] * nf)} if i == 1 else set() for i in range(nc)]
-        (kind, e), log, loc = native_validate_row(accept, veto, row)
+        (kind, e), log, loc = native_validate_row(accept, veto, row, run_started=not first)
+        if first:       # a run that feeds its rows itself: every check is reset once, before anything else is asked
+            resets = [("reset", "c%d" % i) for i in range(nc)]
+            if log[:nc] != resets or any(x[0] == "reset" for x in log[nc:]): return {"expected": "every check reset once, first: %r" % resets, "observed": "calls %r" % (log,)}
+            log = log[nc:]
         # expected, from the statement
         if len(row) != nf: exp = ("DataError", 0, None, [])
         else:
@@ -200,7 +217,7 @@ class ValidateRowOracle(Oracle):
             if e.location is loc: return {"expected": "error owns a copy of the location", "observed": "shares the validator's location object"}
         return None
     def describe(self, case):
-        return {"stub_fields": case[0], "stub_checks": case[1], "row": case[2], "call": "BaseValidator.validate_row(row) with recording stub field formats (accept only 'a') and checks (check 1 vetoes all-'a' rows)"}
+        return {"stub_fields": case[0], "stub_checks": case[1], "row": case[2], "first_row_of_a_run_that_feeds_its_rows_itself": len(case) > 3, "call": "BaseValidator.validate_row(row) with recording stub field formats (accept only 'a') and checks (check 1 vetoes all-'a' rows)"}
 
 
 def unit_validate_row():
@@ -553,7 +570,8 @@ def writer_init_contract(fmt):
     return Contract("validio.Writer.__init__", setup_writer_init(fmt),
         returns=[Clause("resets_done == m", "every-check-of-the-cid-is-reset-before-the-first-row-is-written", props=["C08", "C14", "C20"]),
                  Clause(delegated_ok, "rows-are-delegated-to-the-writer-of-the-cid's-format", props=["C14"]),
-                 Clause("this._cid is cid and this._is_closed == False", "bound-to-the-given-cid", props=["C14"])] if supported else [Clause("False", "unsupported-format-has-no-writer")],
+                 Clause("this._cid is cid and this._is_closed == False", "bound-to-the-given-cid", props=["C14"]),
+                 Clause("this._has_reset_checks == True", "the-run-counts-as-begun:-the-first-written-row-does-not-reset-the-checks-again", props=["C08", "C14", "C20"])] if supported else [Clause("False", "unsupported-format-has-no-writer")],
         raises={} if supported else {"NotImplementedError": []},
         loops={0: LoopSpec(invariants=["resets_done == _i0"], havoc={"check": CHECK}, ghost_havoc={"resets_done": INT}, match="self.cid.check_map.values()")},
         expect=["return"] if supported else ["NotImplementedError"], n_loops=1)
@@ -1310,6 +1328,26 @@ def unit_reader_close():
                 "assumptions": ["BaseValidator.close is used through its verified contract; reset() of a check is abstract and protocol-monitored",
                                 "Reader.rows sets _has_reset_checks right after resetting every check (verified: the reset-first obligations of validio.Reader.rows)"]}
     return ProofUnit("validio.Reader.close", "Reader.close: a reader whose rows() generator never started resets every check before the end-of-data verdicts (F-14)", ["C08", "C05", "C20", "C10"], make, None)
+
+
+# ---------------------------------------------------------------- BaseValidator._reset_checks: every check once, in order; the run counts as begun
+def unit_reset_checks():
+    def setup(ex, st):
+        m = fresh(INT, "m")[0]; st.pc.append(m.z >= 0)
+        checks, c2 = fresh(UFList(CHECK), "checks"); st.pc.extend(c2); st.pc.append(checks.length == m.z)
+        i = z3.Int("i"); cio = ex.absfun_s("check_index_of", [sort_of(CHECK)], z3.IntSort())
+        st.pc.append(z3.ForAll([i], z3.Implies(z3.And(i >= 0, i < m.z), cio(checks.at(i)) == i)))
+        cid = Ref("Cid"); st.heap[cid.oid] = {"_check_name_to_check_map": UFMap(STR, CHECK, None, values=checks)}
+        self = Ref("Reader"); st.heap[self.oid] = {"_cid": cid, "_has_reset_checks": fresh(BOOL, "flag0")[0]}
+        st.frames[-1].env.update({"self": self}); st.ghost.update({"this": self, "m": m, "resets_done": 0})
+    def make(ctx):
+        c = Contract("validio.BaseValidator._reset_checks", setup,
+                returns=[Clause("resets_done == m", "every-check-of-the-cid-is-reset-exactly-once-in-declaration-order", props=["C08", "C05", "C20"]),
+                         Clause("this._has_reset_checks == True", "the-run-counts-as-begun-afterwards", props=["C08", "C20"])],
+                raises={}, loops={0: LoopSpec(invariants=["resets_done == _i0"], havoc={"check": CHECK}, ghost_havoc={"resets_done": INT}, match="self.cid.check_map.values()")},
+                expect=["return"], n_loops=1, modifies=["Reader._has_reset_checks"])
+        return {"contract": c, "callees": {"abs:Check.reset": AbsContract(m_reset)}, "assumptions": ["reset() of a check is abstract and protocol-monitored (it does not raise)"]}
+    return ProofUnit("validio.BaseValidator._reset_checks", "_reset_checks: every check reset once in order, the run marked as begun (used by validate_row for runs that feed their rows themselves)", ["C08", "C05", "C20"], make, None)
 
 
 # ---------------------------------------------------------------- BaseValidator.__exit__ : close() always; an error already under way is not replaced
